@@ -38,6 +38,15 @@ def eval_call(E, node, st):
                     return [Out("ok", s, v)]
                 return [Out("ok", s, V(Kind("seq", v.kind[1]), E.list_seq(s, v)))]
             return E.bind(E.eval(node.args[0], st), ki)
+        if f.id == "first" and E.spec_mode:
+            # first(xs, n): the first n elements of a list / sequence (0 <= n <= len(xs) is the caller's business)
+            def kf(s, vs):
+                xs, n = vs
+                seq = E.list_seq(s, xs) if xs.kind.tag == "list" else xs.t
+                v = V(Kind("seq", xs.kind[1]), z3.SubSeq(seq, z3.IntVal(0), E.to_int(n).t))
+                v.aux = {"first": (seq, E.to_int(n).t)}
+                return [Out("ok", s, v)]
+            return E.eval_seq(list(node.args), st, kf)
         if f.id == "same_except" and E.spec_mode:
             # same_except(d, k1, k2, ...): the dict d has the keys and values it had at entry, except possibly at
             # the listed keys (which may be None: no key)
@@ -48,7 +57,39 @@ def eval_call(E, node, st):
                 olds = s.copy()
                 olds.heap = dict(E.frame.old.heap)
                 K = sort_of(dv.kind[1])
-                keys = [E.coerce(k, dv.kind[1]).t for k in vs[1:] if k.kind.tag != "none"]
+                keys = [E.coerce(k, dv.kind[1]).t for k in vs[1:] if k.kind.tag not in ("none", "seq", "list")]
+                keysets = []
+                for k in vs[1:]:
+                    if k.kind.tag == "seq" and k.aux and "first" in k.aux:
+                        keysets.append(k.aux["first"])
+                    elif k.kind.tag == "seq":
+                        keysets.append((k.t, z3.Length(k.t)))
+                    elif k.kind.tag == "list":
+                        sq = E.list_seq(s, k)
+                        keysets.append((sq, z3.Length(sq)))
+                if keysets:
+                    E.uses_quantifiers = True
+                    # some of the exceptions are given as sequences of keys: for every key outside the listed keys and
+                    # outside those sequences the dict is as it was at entry (a quantified formula)
+                    q = z3.Const(fresh_name("sek"), K)
+                    excl = [q == kt for kt in keys]
+                    for sq, cnt in keysets:
+                        # membership by position (an index witness instantiates well; `Contains` on slices does not)
+                        j = z3.Int(fresh_name("sej"))
+                        excl.append(z3.Exists([j], z3.And(j >= 0, j < cnt, sq[j] == q)))
+                    names = [("DK|%s|%s" % (dv.kind[1], dv.kind[2]), z3.ArraySort(K, z3.BoolSort()))]
+                    ks = alts(dv.kind[2])
+                    if len(ks) > 1:
+                        names.append(("DT|%s|%s" % (dv.kind[1], dv.kind[2]), z3.ArraySort(K, z3.IntSort())))
+                    for k in ks:
+                        if k.tag != "none":
+                            names.append((E.dvals_key(dv, k), z3.ArraySort(K, sort_of(k))))
+                    same = []
+                    for name, srt in names:
+                        cur = z3.Select(E.arr(s, name, z3.IntSort(), srt), dv.t)
+                        old = z3.Select(E.arr(olds, name, z3.IntSort(), srt), dv.t)
+                        same.append(z3.Select(cur, q) == z3.Select(old, q))
+                    return [Out("ok", s, vbool(z3.ForAll([q], z3.Or(excl + [z3.And(same)]))))]
                 names = [("DK|%s|%s" % (dv.kind[1], dv.kind[2]), z3.ArraySort(K, z3.BoolSort()))]
                 ks = alts(dv.kind[2])
                 if len(ks) > 1:
@@ -146,6 +187,7 @@ def _old(E, node, st):
 
 def _quant(E, node, st):
     """all(P for x in S) / any(...) -> quantified formula (spec mode) """
+    E.uses_quantifiers = True
     gen = node.args[0]
     if len(gen.generators) != 1 or gen.generators[0].ifs and False:
         raise Unsupported("quantifier with several generators")
@@ -185,15 +227,20 @@ def _quant(E, node, st):
             body = gen.elt
             for cond in g.ifs:
                 body = ast.BoolOp(op=ast.Or(), values=[ast.UnaryOp(op=ast.Not(), operand=cond), body]) if is_all else ast.BoolOp(op=ast.And(), values=[cond, body])
-            b = E.merged_bool(body, a[0].st)
+            E.__dict__.setdefault("quant_axioms", []).append({"n0": len(a[0].st.pc), "items": []})
+            try:
+                b = E.merged_bool(body, a[0].st)
+            finally:
+                hyp = E.quant_axioms.pop()["items"]
+            if hyp:
+                # well-typed heap: what is read (under its guards) for a key of the dict is a valid reference
+                E.add_axiom(z3.ForAll([kv], z3.Implies(rng, z3.And(hyp))))
             if is_all:
                 return [Out("ok", s, vbool(z3.ForAll([kv], z3.Implies(rng, b))))]
             return [Out("ok", s, vbool(z3.Exists([kv], z3.And(rng, b))))]
         else:
             raise Unsupported("quantifier over %s" % (it.kind,))
         base = s.assume(rng)
-        if is_refkind(elemv.kind) and elemv.kind.tag != "tuple":
-            base = E.assume_valid_ref(base, elemv)
         a = E.assign(base, g.target, elemv)
         if len(a) != 1 or a[0].tag != "ok":
             raise Unsupported("quantifier target")
@@ -201,7 +248,16 @@ def _quant(E, node, st):
         body = gen.elt
         for cond in g.ifs:
             body = ast.BoolOp(op=ast.Or(), values=[ast.UnaryOp(op=ast.Not(), operand=cond), body]) if is_all else ast.BoolOp(op=ast.And(), values=[cond, body])
-        b = E.merged_bool(body, base)
+        E.__dict__.setdefault("quant_axioms", []).append({"n0": len(base.pc), "items": []})
+        try:
+            if is_refkind(elemv.kind) and elemv.kind.tag != "tuple":
+                base = E.assume_valid_ref(base, elemv)
+            b = E.merged_bool(body, base)
+        finally:
+            hyp = E.quant_axioms.pop()["items"]
+        if hyp:
+            # well-typed heap: the elements in range, and what the body reads under its guards, are valid references
+            E.add_axiom(z3.ForAll([i], z3.Implies(rng, z3.And(hyp))))
         s_out = s
         if is_all:
             return [Out("ok", s_out, vbool(z3.ForAll([i], z3.Implies(rng, b))))]
